@@ -259,6 +259,28 @@ template <class K> struct World {
                 snprintf(b, sizeof b, "%25.16E", v); t += b; cnt++;
                 if (cnt % 3 == 0 || cnt == nval) t += "\n";
             }
+        } else if (fmt == "rb") { // Rutherford-Boeing: like HB with a 4-field second line and no right-hand-side format
+            int nnz = M.nnz(); int nval = K::cplx ? 2 * nnz : nnz;
+            int ptrcrd = (M.n + 1 + 7) / 8, indcrd = (nnz + 7) / 8, valcrd = (nval + 2) / 3;
+            snprintf(b, sizeof b, "%-72s%-8s\n", "simulated lifecycle matrix", "SIMKEY"); t += b;
+            snprintf(b, sizeof b, "%14d%14d%14d%14d\n", ptrcrd + indcrd + valcrd, ptrcrd, indcrd, valcrd); t += b;
+            snprintf(b, sizeof b, "%3s%11s%14d%14d%14d%14d\n", K::cplx ? "cua" : "rua", "", M.m, M.n, nnz, 0); t += b;
+            snprintf(b, sizeof b, "%-16s%-16s%-20s\n", "(8I10)", "(8I10)", "(3E25.16)"); t += b;
+            for (int j = 0; j <= M.n; j++) { snprintf(b, sizeof b, "%10d", M.colptr[j] + 1); t += b; if (j % 8 == 7 || j == M.n) t += "\n"; }
+            for (int k = 0; k < nnz; k++) { snprintf(b, sizeof b, "%10d", M.rowind[k] + 1); t += b; if (k % 8 == 7 || k == nnz - 1) t += "\n"; }
+            int cnt = 0;
+            for (int k = 0; k < nnz; k++) for (int c = 0; c < (K::cplx ? 2 : 1); c++) {
+                double v = c ? M.im[k] : M.re[k]; v = (double)(typename K::real)v;
+                snprintf(b, sizeof b, "%25.16E", v); t += b; cnt++;
+                if (cnt % 3 == 0 || cnt == nval) t += "\n";
+            }
+        } else if (fmt == "triple") {
+            snprintf(b, sizeof b, "%d %d\n", M.n, M.nnz()); t += b;
+            for (int j = 0; j < M.n; j++) for (int k = M.colptr[j]; k < M.colptr[j + 1]; k++) {
+                double re = (double)(typename K::real)M.re[k], im = (double)(typename K::real)M.im[k];
+                if (K::cplx) snprintf(b, sizeof b, "%d %d %.17g %.17g\n", M.rowind[k] + 1, j + 1, re, im); else snprintf(b, sizeof b, "%d %d %.17g\n", M.rowind[k] + 1, j + 1, re);
+                t += b;
+            }
         } else { // Matrix Market coordinate
             snprintf(b, sizeof b, "%%%%MatrixMarket matrix coordinate %s general\n%% simulated lifecycle matrix\n%d %d %d\n", K::cplx ? "complex" : "real", M.m, M.n, M.nnz()); t += b;
             for (int j = 0; j < M.n; j++) for (int k = M.colptr[j]; k < M.colptr[j + 1]; k++) {
@@ -284,7 +306,13 @@ template <class K> struct World {
             int rm = 0, rn = 0; int_t rnnz = 0; S *a = nullptr; int_t *asub = nullptr, *xa = nullptr;
             rt_op_begin(ctx, (int)trace.size() - 1, o.faults);
             if (o.reader == "hb") K::readhb(fp, &rm, &rn, &rnnz, &a, &asub, &xa); // closes fp itself
-            else { K::readMM(fp, &rm, &rn, &rnnz, &a, &asub, &xa); fclose(fp); }
+            else if (o.reader == "mm") { K::readMM(fp, &rm, &rn, &rnnz, &a, &asub, &xa); fclose(fp); }
+            else { // ?readrb and ?readtriple read stdin: glibc's stdin is assignable; single-task lifecycles only
+                FILE *saved = stdin; stdin = fp;
+                if (o.reader == "rb") K::readrb(&rm, &rn, &rnnz, &a, &asub, &xa); // closes the stream itself
+                else { K::readtriple(&rm, &rn, &rnnz, &a, &asub, &xa); fclose(fp); }
+                stdin = saved;
+            }
             rt_op_end(ctx);
             if (rm != M.m || rn != M.n || rnnz != M.nnz()) { viol(r, "reader", "reader returned different dimensions"); r.cls = XC_ARGERR; return; }
             K::Create_CompCol_Matrix(&s.A, rm, rn, rnnz, a, asub, xa, SLU_NC, K::dtype, SLU_GE);
